@@ -200,6 +200,7 @@ struct Out
     char cur_op[48] = "";
     char cur_pre[64] = "";
     char cur_x[160] = "";
+    const char* extra_props = "";  // appended to the owners of every violation (the fault engine: everything is C17's)
 };
 
 inline Out& out()
@@ -256,7 +257,7 @@ inline void violation(const char* props, const char* kind, const std::string& de
     emit(J().kv("t", "viol")
              .kv("case", o.cur_case)
              .kv("step", o.cur_step)
-             .kv("props", props)
+             .kv("props", o.extra_props[0] && !strstr(props, o.extra_props) ? std::string(props) + "," + o.extra_props : std::string(props))
              .kv("kind", kind)
              .kv("op", op[0] ? op : o.cur_op)
              .kv("pre", prestate[0] ? prestate : o.cur_pre)
